@@ -52,6 +52,11 @@ func (su *startupIter) noteSAW() {
 func (su *startupIter) handler(i int) func(ctx context.Context) {
 	w := su.ws[i]
 	return func(ctx context.Context) {
+		if w.runs.Add(1) > 1 {
+			s := fmt.Sprintf("the handler of worker %s (order %d) was launched a second time (first run returned: %v, context cancelled: %v)", w.name, w.order, w.returned.Load(), ctx.Err() != nil)
+			su.it.restarted.CompareAndSwap(nil, &s)
+			return
+		}
 		w.ctx.Store(&ctx)
 		w.started.Store(true)
 		if su.startCount.Add(1) == su.k {
@@ -146,8 +151,12 @@ func startupOne(c *vf.Ctx, seed int64, batch, iter int, race bool) {
 		}
 	}
 	curIter.Store(su.it)
+	prePlan, postPlan := queryPlan(rng, false, true), queryPlan(rng, true, true)
+	runQueries(su.d, prePlan, nil) // before Start
 	su.d.Start()
 	startRet := tick()
+	runQueries(su.d, postPlan, nil) // after Start returned, possibly during the shutdown a worker requested
+	c.Count("stress_query_calls", len(prePlan)+len(postPlan))
 	su.it.shutReq.Store(true)
 	su.d.ShutdownAndWait()
 	su.noteSAW()
@@ -170,6 +179,7 @@ func startupOne(c *vf.Ctx, seed int64, batch, iter int, race bool) {
 	if s := su.it.orderViol.Load(); s != nil {
 		viol("order:cancelled-before-higher-returned", "shutdown requested by a worker during start-up: "+*s)
 	}
+	reportRestart(su.it, viol)
 	nStarted, bad := 0, 0
 	for _, w := range su.ws {
 		if !w.started.Load() {
